@@ -185,9 +185,6 @@ def run(ck):
     R7_EXEMPT = {"Pistache::Http::Header::CacheControl::parseRaw": "do-while: progress follows from current() == ',' (value reasoning)"}
     nlp = 0
     for f in prog.funcs.values():
-        if f.base in R7_EXEMPT:
-            ck.note("C03-R7: %s exempt: %s" % (f.base, R7_EXEMPT[f.base]))
-            continue
         if not in_parser(f) or f.base.startswith(CUR) or f.base.startswith("Pistache::StreamBuf") or f.base.startswith("Pistache::ArrayStreamBuf"):
             continue
         cursors = {p_["name"] for p_ in f.params if "StreamCursor" in p_["type"]} | {d["var"] for d in f.events("decl") if (d.get("type") or "").replace("Pistache::", "").startswith("StreamCursor") and "::" not in (d.get("type") or "").replace("Pistache::", "")[len("StreamCursor"):]}
@@ -208,6 +205,11 @@ def run(ck):
             if not any(any(("c:" + r_) in (t.get("refs") or []) for r_ in READERS) for t in conds):
                 continue
             nlp += 1
+            # the exemption covers the named function's do-while only, never the loops nested in it
+            is_do = any((f.blocks[b].term or {}).get("k") == "do" and len(f.blocks[b].succs) == 2 and f.blocks[b].succs[1] not in body for b in body)
+            if f.base in R7_EXEMPT and is_do:
+                ck.note("C03-R7: %s do-while exempt: %s" % (f.base, R7_EXEMPT[f.base]))
+                continue
             stuck = []
 
             def step7(st, ev):
